@@ -356,7 +356,7 @@ func randTree(r *core.Rand, maxNodes int) *tree {
 			if r.Chance(1, 4) {
 				p = r.Intn(trunk + 1)
 			}
-			t.addSeg(p, r.Intn(60)+1)
+			t.addSeg(p, r.Intn(min(60, maxNodes))+1)
 		}
 	case 3:
 		if l := r.Intn(maxNodes); l > 0 {
@@ -550,29 +550,37 @@ func queryOps(r *core.Rand, t *tree, tip int, k int) []string {
 
 func (P) Generate(g *core.Gen) {
 	r := g.R
-	// getAncestorHeight / fastLog2Floor on boundary heights
-	for k := 0; k < 31; k++ {
-		for _, d := range []int64{-2, -1, 0, 1, 2, 3} {
-			h := int64(1)<<uint(k) + d
-			if h < 0 || h > 2147483647 {
-				continue
-			}
-			g.Case("gah-pow2", h > 0, fmt.Sprintf("C17 gah %d", h))
-			g.Case("log2-pow2", h > 0, fmt.Sprintf("C17 log2 %d", h))
-		}
-	}
-	for i := 0; i < g.N(600, 50000); i++ {
-		h := int64(r.U32() >> 1 >> uint(r.Intn(31)))
-		g.Case("gah-rand", h > 0, fmt.Sprintf("C17 gah %d", h))
-		g.Case("log2-rand", true, fmt.Sprintf("C17 log2 %d", r.U32()>>uint(r.Intn(32))))
-	}
-	// exhaustive small heights: skip pointers of every node of a 600-chain
+	// Ancestor on long linear chains around every power of two (the skip heights are bit tricks);
+	// thorough: up to 2^20
 	{
-		var ops []string
-		for i := 0; i <= 600; i++ {
-			ops = append(ops, fmt.Sprintf("skip:%d", i))
+		maxK := 12
+		if g.Thorough() {
+			maxK = 20
 		}
-		g.Case("skip-linear-all", true, "C17 t 0:600 "+strings.Join(ops, " "))
+		l := 1<<uint(maxK) + 3
+		var ops []string
+		for k := 0; k <= maxK; k++ {
+			for _, d := range []int{-1, 0, 1} {
+				n := 1<<uint(k) + d
+				for j := 0; j <= maxK; j++ {
+					for _, e := range []int{-1, 0, 1, 2} {
+						ops = append(ops, fmt.Sprintf("anc:%d:%d", n, 1<<uint(j)+e-1))
+					}
+				}
+				ops = append(ops, fmt.Sprintf("anc:%d:%d", n, n), fmt.Sprintf("anc:%d:%d", n, n+1), fmt.Sprintf("anc:%d:-1", n),
+					fmt.Sprintf("anc:%d:%d", l, n), fmt.Sprintf("rel:%d:%d", l, n), fmt.Sprintf("isa:%d:%d", l, n))
+			}
+		}
+		g.Case("anc-linear-pow2", true, fmt.Sprintf("C17 t 0:%d %s", l, strings.Join(ops, " ")))
+	}
+	for i := 0; i < g.N(6, 40); i++ {
+		l := r.Intn(g.N(5000, 60000)) + 100
+		var ops []string
+		for k := 0; k < 400; k++ {
+			n := r.Intn(l + 1)
+			ops = append(ops, fmt.Sprintf("anc:%d:%d", n, edgeHeight(r, n)))
+		}
+		g.Case("anc-linear-rand", true, fmt.Sprintf("C17 t 0:%d %s", l, strings.Join(ops, " ")))
 	}
 	// Ancestor on linear chains: every target height for a few lengths (thin slice)
 	for _, l := range []int{1, 2, 3, 15, 16, 17, 64, 100, 257} {
@@ -583,11 +591,10 @@ func (P) Generate(g *core.Gen) {
 		g.Case("anc-linear-all", true, fmt.Sprintf("C17 t 0:%d %s", l, strings.Join(ops, " ")))
 	}
 	// all pairs on small random trees: anc / isa / rel / skip
-	for i := 0; i < g.N(60, 2000); i++ {
+	for i := 0; i < g.N(300, 4000); i++ {
 		t := randTree(r, r.Intn(24)+1)
 		var ops []string
 		for a := 0; a < t.n(); a++ {
-			ops = append(ops, fmt.Sprintf("skip:%d", a))
 			for h := -1; h <= t.height[a]+1; h++ {
 				ops = append(ops, fmt.Sprintf("anc:%d:%d", a, h))
 			}
@@ -599,7 +606,7 @@ func (P) Generate(g *core.Gen) {
 		g.Case("allpairs-small", t.n() > 2, fmt.Sprintf("C17 t %s %s", t, strings.Join(ops, " ")))
 	}
 	// all pairs on small trees: view ops for every tip and every node
-	for i := 0; i < g.N(60, 2000); i++ {
+	for i := 0; i < g.N(300, 4000); i++ {
 		t := randTree(r, r.Intn(14)+1)
 		var ops []string
 		for tip := 0; tip < t.n(); tip++ {
@@ -614,7 +621,7 @@ func (P) Generate(g *core.Gen) {
 		g.Case("view-allpairs-small", t.n() > 2, fmt.Sprintf("C17 t %s %s", t, strings.Join(ops, " ")))
 	}
 	// every stop and max on small trees
-	for i := 0; i < g.N(40, 1500); i++ {
+	for i := 0; i < g.N(200, 3000); i++ {
 		t := randTree(r, r.Intn(10)+2)
 		tip := t.randNode(r)
 		ops := []string{fmt.Sprintf("tip:%d", tip)}
@@ -630,8 +637,8 @@ func (P) Generate(g *core.Gen) {
 		g.Case("inv-every-stop-max", t.n() > 2, fmt.Sprintf("C17 t %s %s", t, strings.Join(ops, " ")))
 	}
 	// random trees up to 2000 nodes (thorough: 5000), random tips (re-orgs of the view) and queries
-	for i := 0; i < g.N(250, 6000); i++ {
-		maxN := int(r.Pick(5, 30, 200, 2000))
+	for i := 0; i < g.N(700, 12000); i++ {
+		maxN := int(r.Pick(5, 30, 30, 200, 200, 2000))
 		if g.Thorough() && r.Chance(1, 10) {
 			maxN = 5000
 		}
@@ -640,8 +647,6 @@ func (P) Generate(g *core.Gen) {
 		for k := r.Intn(30) + 5; k > 0; k-- {
 			a := t.randNode(r)
 			switch r.Intn(5) {
-			case 0:
-				ops = append(ops, fmt.Sprintf("skip:%d", a))
 			case 1:
 				ops = append(ops, fmt.Sprintf("rel:%d:%d", a, edgeHeight(r, t.height[a])))
 			case 2:
@@ -675,6 +680,21 @@ func (P) Generate(g *core.Gen) {
 			class = "tree-medium"
 		}
 		g.Case(class, t.n() > 3, fmt.Sprintf("C17 t %s %s", t, strings.Join(ops, " ")))
+	}
+	// view life with revisits: tips drawn from a small pool (stale slice entries beyond len matter)
+	for i := 0; i < g.N(600, 8000); i++ {
+		t := randTree(r, int(r.Pick(8, 20, 60)))
+		pool := []int{t.randNode(r), t.randNode(r), t.randNode(r), t.n() - 1, 0}
+		var ops []string
+		for k := r.Intn(10) + 3; k > 0; k-- {
+			tip := pool[r.Intn(len(pool))]
+			if r.Chance(1, 12) {
+				ops = append(ops, "tip:-")
+			}
+			ops = append(ops, fmt.Sprintf("tip:%d", tip), "view")
+			ops = append(ops, queryOps(r, t, tip, r.Intn(4))...)
+		}
+		g.Case("view-life", t.n() > 2, fmt.Sprintf("C17 t %s %s", t, strings.Join(ops, " ")))
 	}
 	// status-dependent error paths of HeightToHashRange / IntervalBlockHashes
 	for i := 0; i < g.N(40, 600); i++ {
